@@ -585,6 +585,17 @@ class Parser:
                     while self.accept('op', ','):
                         args.append(self.expr())
                 self.expect('op', ')')
+                if self.peek()[0] == 'id' and self.peek()[1].lower() == 'over':
+                    # window function: only row_number() OVER (ORDER BY ...) (no PARTITION BY, no frames)
+                    self.next()
+                    self.expect('op', '(')
+                    if self.peek()[0] == 'id' and self.peek()[1].lower() == 'partition':
+                        raise ShimGap('SQL: PARTITION BY')
+                    worder = self.order_by()
+                    self.expect('op', ')')
+                    if name.lower() != 'row_number' or args or not worder:
+                        raise ShimGap('SQL: window function %s' % name)
+                    return ('window', name.lower(), tuple((e, d) for e, d in worder))
                 return ('call', name.lower(), args, distinct)
             if self.accept('op', '.'):
                 col = self.ident()
@@ -608,8 +619,24 @@ def parse(sql):
 AGGREGATES = {'min', 'max', 'sum', 'avg', 'count', 'total'}
 
 
+def window_nodes(e, acc):
+    """Window-function nodes of an expression (not descending into subqueries)."""
+    if not isinstance(e, (tuple, list)):
+        return acc
+    if isinstance(e, tuple) and e and e[0] == 'window':
+        acc.append(e)
+        return acc
+    if isinstance(e, tuple) and e and e[0] in ('subquery', 'exists'):
+        return acc
+    for x in (e[1:] if isinstance(e, tuple) else e):
+        window_nodes(x, acc)
+    return acc
+
+
 def has_aggregate(e):
     if not isinstance(e, tuple):
+        return False
+    if e[0] == 'window':
         return False
     if e[0] == 'call' and e[1] in AGGREGATES and not (e[1] in ('min', 'max') and len(e[2]) > 1):
         return True
@@ -1269,6 +1296,7 @@ class Ctx:
         self.db = db
         self.pos, self.named = params
         self.ctes = {}
+        self._window_ranks = {}
 
     # ---- SELECT ----------------------------------------------------------------------------
     def source_rows(self, name):
@@ -1420,6 +1448,27 @@ class Ctx:
                     rowvals.append(self.eval_agg(it[1], members, outer))
                 out.append((tuple(rowvals), ('agg', members)))
         else:
+            wins = []
+            for it in items:
+                if it[0] == 'expr':
+                    window_nodes(it[1], wins)
+            for w in wins:
+                # row_number() OVER (ORDER BY ...): rank of the row among the rows of this SELECT
+                # (after WHERE); ties are numbered in the order of the scan, as sqlite does
+                worder = w[2]
+                keyed = [([self.eval(e, Scope(c, outer)) for e, _ in worder], i) for i, c in enumerate(combos)]
+
+                def wcmp(a, b, worder=worder):
+                    for x, y, (e, desc) in zip(a[0], b[0], worder):
+                        r = order_cmp(x, y)
+                        if r:
+                            return -r if desc else r
+                    return 0
+                keyed.sort(key=functools.cmp_to_key(wcmp))
+                ranks = {}
+                for n, (_, i) in enumerate(keyed):
+                    ranks[id(combos[i])] = n + 1
+                self._window_ranks[id(w)] = ranks
             for c in combos:
                 sc = Scope(c, outer)
                 rowvals = []
@@ -1560,6 +1609,11 @@ class Ctx:
                     return int(float(v))
                 return nplite.trunc(to_sqlint(v))
             raise ShimGap('SQL: CAST AS %s' % e[2])
+        if k == 'window':
+            ranks = self._window_ranks.get(id(e))
+            if ranks is None or id(scope.bindings) not in ranks:
+                raise ShimGap('SQL: window function outside the select list')
+            return ranks[id(scope.bindings)]
         if k == 'call':
             name, args = e[1], e[2]
             if name in AGGREGATES and not (name in ('min', 'max') and len(args) > 1):
